@@ -4,6 +4,13 @@ CONSTANTS
   Thresholds = {}
   Batches = {}
   RecSizes = {}
+  RecShapes = {}
+  Sizes = {}
+  LargeSizes = {}
+  MaxRelogs = 0
+  ShareOnCopy = TRUE
+  CloneBeforeAdd = TRUE
+  RebindOnLarge = FALSE
   MaxH = 100000
   MaxLogs = 0
   MaxGroups = 0
